@@ -39,7 +39,7 @@ def node(depth):
         st.builds(lambda c: {"t": "copy", "children": c}, kids),
         st.builds(lambda c, a, d, f: {"t": "tagger", "children": c, "add": sorted(a), "discard": sorted(d), "form": f}, kids, TAGSET, TAGSET, TAGGER_FORM),
         st.builds(lambda c: {"t": "ts", "child": c}, node(depth - 1)),
-        st.builds(lambda c, code: {"t": "queue", "child": c, "code": code}, node(depth - 1), st.sampled_from(["0", "1", "q", "10"])),
+        st.builds(lambda c, code: {"t": "queue", "child": c, "code": code}, node(depth - 1), st.sampled_from(["0", "1", "q", "10", None])),   # None: nothing to prefix (ConcurrentStreamTestSuite allows it)
     )
 
 
@@ -166,7 +166,8 @@ def model_path(ev, path):
             if ev["timestamp"] is None:
                 ev["timestamp"] = NOW
         elif step[0] == "queue":
-            ev["route_code"] = step[1] if ev["route_code"] is None else step[1] + "/" + ev["route_code"]
+            if step[1] is not None:
+                ev["route_code"] = step[1] if ev["route_code"] is None else step[1] + "/" + ev["route_code"]
     return ev
 
 
